@@ -180,7 +180,9 @@ def generate(rng, cfg: Dict) -> Dict:
     m = matrix()
     if index < len(m):
         f = m[index]
-        return {"property": "C19", "machine": "json_sim", "mode": "matrix", "doc": CORPUS[f["doc"]], "faults": [{"pos": f["pos"], "kind": f["kind"], "value": f["value"]}], "fail_modules": [FAILING_MODULE]}
+        one = {"doc": CORPUS[f["doc"]], "faults": [{"pos": f["pos"], "kind": f["kind"], "value": f["value"]}]}
+        # every entry of the matrix is read twice in the same process (a second read must fail like the first)
+        return {"property": "C19", "machine": "json_sim", "mode": "matrix", "doc": one["doc"], "faults": one["faults"], "reads": [one, copy.deepcopy(one)], "fail_modules": [FAILING_MODULE]}
     c = Chooser(rng)
     doc = _random_doc(c)
     stored = json.loads(json.dumps(js.to_json(build(doc))))
@@ -212,7 +214,22 @@ def generate(rng, cfg: Dict) -> Dict:
             else:
                 value = _mutate_string(c, real)
             faults.append({"pos": pi, "kind": kind, "value": value})
-    return {"property": "C19", "machine": "json_sim", "mode": "sequence", "doc": doc, "faults": faults, "fail_modules": [FAILING_MODULE] if c.chance(0.8) else []}
+    reads = [{"doc": doc, "faults": faults}]
+    # a history of reads in one process: the same corrupted document again, or the same bad tag in another document
+    for _ in range(c.weighted([(0, 3), (1, 3), (2, 2), (3, 1)])):
+        prev = c.pick(reads)
+        if c.chance(0.5) or not prev["faults"]:
+            reads.append(copy.deepcopy(prev))
+        else:
+            other = _random_doc(c)
+            n_pos = len(tag_positions(json.loads(json.dumps(js.to_json(build(other))))))
+            if n_pos == 0:
+                reads.append(copy.deepcopy(prev))
+            else:
+                f = copy.deepcopy(c.pick(prev["faults"]))
+                f["pos"] = c.int(0, n_pos - 1)
+                reads.append({"doc": other, "faults": [f]})
+    return {"property": "C19", "machine": "json_sim", "mode": "sequence", "doc": doc, "faults": faults, "reads": reads, "fail_modules": [FAILING_MODULE] if c.chance(0.8) else []}
 
 
 # ----------------------------------------------------------------------- simulated import system
@@ -311,6 +328,22 @@ def classify(value, failing) -> Dict:
 def execute(scenario: Dict) -> Dict:
     log, counters = kernel.EventLog(), kernel.Counters()
     verdicts: List[Dict] = []
+    reads = scenario.get("reads") or [{"doc": scenario["doc"], "faults": scenario["faults"]}]
+    nontrivial = False
+    for n, read in enumerate(reads):
+        applied = _one_read(dict(scenario, doc=read["doc"], faults=read["faults"]), n, log, counters, verdicts)
+        nontrivial = nontrivial or applied
+        if verdicts:
+            break
+    if len(reads) > 1:
+        counters.inc("fault.repeated_read", len(reads) - 1)
+    counters.inc("ops", sum(len(r["faults"]) for r in reads))
+    shape = kernel.short_hash([[[r["doc"], [[f["pos"], f["kind"], f["value"] if f["value"] != DELETE else "<deleted>"] for f in r["faults"]]] for r in reads], scenario.get("fail_modules")])
+    counters.inc("runs")
+    return {"verdicts": verdicts, "digest": log.digest(), "counters": dict(counters), "nontrivial": nontrivial, "shape": shape}
+
+
+def _one_read(scenario: Dict, read_no: int, log, counters, verdicts) -> bool:
     value = build(scenario["doc"])
     stored_text = json.dumps(js.to_json(value))  # the writer
     # fault-free control (also the warm-up that loads everything krrood imports lazily)
@@ -319,8 +352,8 @@ def execute(scenario: Dict) -> Dict:
         counters.inc("probe.control_failed")
         log.add("CONTROL-FAILED", describe(control), describe(value))
     failing = list(scenario.get("fail_modules", []))
-    sim = SimulatedImportSystem(failing)
-    _install(sim)
+    if not isinstance(js.importlib, SimulatedImportSystem):
+        _install(SimulatedImportSystem(failing))
     # the fault injector works on the document at rest
     stored = json.loads(stored_text)
     positions = tag_positions(stored)
@@ -378,11 +411,9 @@ def execute(scenario: Dict) -> Dict:
         elif outcome == "raised" and isinstance(exc, (KeyboardInterrupt, SystemExit, MemoryError, RecursionError)):
             verdicts.append(kernel.verdict("C19.escape", f"from_json raised {type(exc).__name__}", fault_kind=kind0, why=why0, exception=type(exc).__name__))
     counters.inc("reads")
-    counters.inc("ops", len(scenario["faults"]))
-    nontrivial = bool(applied)
-    shape = kernel.short_hash([scenario["doc"], [[f["pos"], f["kind"], f["value"] if f["value"] != DELETE else "<deleted>"] for f in scenario["faults"]], scenario.get("fail_modules")])
-    counters.inc("runs")
-    return {"verdicts": verdicts, "digest": log.digest(), "counters": dict(counters), "nontrivial": nontrivial, "shape": shape}
+    for v in verdicts:
+        v["features"].setdefault("read_no", read_no)
+    return bool(applied)
 
 
 _UNKNOWN = object()
@@ -417,7 +448,7 @@ def neutralise(scenario, name, verdict):
     return None
 
 
-DDMIN_KEYS = ["faults"]
+DDMIN_KEYS = ["reads", "faults"]
 
 
 def shrink_candidates(sc: Dict):
